@@ -61,7 +61,7 @@ PROPS = {
         "rule": "rd: 1-5 frames (lengths 0,1,2,253-256,507-509, random; zero-free/zero-rich; zero right after a 254-run) written through the real "
                 "CobsWrapper.Write, idle delimiters, cut into device reads (byte-wise, all at once, near frame boundaries, random density, empty reads), "
                 "~25% with one damage event (flip/drop/insert/long burst); enc: Write output; dec: decoder on valid/truncated/corrupted/random bytes. "
-                "distinct = distinct case line; all cases non-trivial (each runs the reader or codec); long frames aim at zero-free runs of exactly 252, 253 and 254 bytes",
+                "distinct = distinct case line; all cases non-trivial (each runs the reader or codec); long frames aim at zero-free runs of exactly 252, 253 and 254 bytes; the stream cases switch the debug level (SetDebug) between reads",
         "trusted": ["bytes.Buffer / bytes.IndexByte / copy semantics (parameters, exercised by the run)"],
         "modelled": ["client/cobs-wrapper.go: cobsEncode, cobsDecodeInplace (in-place aliasing abstracted to a pure function), CobsWrapper.Read/Write modelled by hand in Siot/Model/Cobs.lean",
                      "device reads are whole chunks of at most len(b) bytes; blocking/timing of the serial port is not modelled"],
@@ -141,7 +141,7 @@ PROPS = {
                 "nil vs non-nil, 0..9 elements; a separate 'wide' stream with 999/1000/1001 elements, integers beyond 2^53 and empty map keys; 1 dm case in 120 with maps of 400-1000 entries "
                 "that are largely replaced and slices growing/shrinking between 0, 3, 700 and 1000 elements): "
                 "enc (points compared sorted), rt (Encode then Decode into the zero value), dm (DiffPoints then MergePoints onto a copy), rtc (1 case in 8: the type gets 1-2 `child` fields with their own random element "
-                "types; the value and 0-5 children, in any order and sometimes of a node type no field asks for, are encoded and decoded together); distinct = distinct case line",
+                "types; the value and 0-5 children, in any order and sometimes of a node type no field asks for, are encoded and decoded together); distinct = distinct case line; a node with two or more children is decoded into the same struct twice (children in another order first); the struct to fill is passed as pointer, reflect.Value or *reflect.Value, chosen by the case text",
         "trusted": ["reflect (modelled by a deep embedding of types and values)", "IEEE-754 / Go numeric conversions (parameter Num with the stated laws NumLaws; instantiated with real floats in the driver)"],
         "modelled": ["data/encode.go Encode, appendPointsFromValue, pointFromPrimitive, DiffPoints; data/decode.go Decode, SetValue, setVal; data/merge.go MergePoints modelled by hand (Siot/Model/Config.lean)",
                      "child lists (`child` tag) are modelled one level deep (decodeC / decodeKids: the element types have no child fields of their own); FindNodeInStruct (merging into a nested child) is not modelled",
@@ -192,7 +192,7 @@ PROPS = {
         "thorough_seeds": 3,
         "rule": "chain R->a->b->c plus d under a (inner edge sometimes tombstoned), then 2-6 of: self edge, root tombstone (values 1, 2, 0.5; parent '' or root), NaN hidden inside an otherwise good "
                 "node-point or edge-point batch, cycle-closing edges (a under c/b/d, R under c/d, b under c), new edge without node type, legal mirrors, good follow-up writes; "
-                "oracle = every must-refuse request is refused, the final rows equal what the accepted requests alone produce, hashes consistent; distinct = distinct case line; every fifth case runs over the bus with a subscription to up.> (reply of every request, everything rebroadcast for the final, mostly refusable, write); every tenth performs one move or mirror through client.MoveNode / client.MirrorNode (below the node itself or a descendant: must be refused, rebroadcast nothing, leave the edges as they were; or legal)",
+                "oracle = every must-refuse request is refused, the final rows equal what the accepted requests alone produce, hashes consistent; distinct = distinct case line; every fifth case runs over the bus with a subscription to up.> (reply of every request, everything rebroadcast for the final, mostly refusable, write); every tenth performs one move or mirror through client.MoveNode / client.MirrorNode (below the node itself or a descendant: must be refused, rebroadcast nothing, leave the edges as they were; or legal); NaN values also come in tombstoned points and in points that carry a text; cycles that close only through the newer of two parents",
         "trusted": ["modernc SQLite: row storage fidelity (TEXT/BLOB/INT/REAL), atomic commit, rollback (parameter; every case runs on a real database file)", "hash/crc32 IEEE table implementation (modelled bit-serially; equality exercised through the stored hashes of every case)"],
         "modelled": ["store/sqlite.go nodePoints, edgePoints, updateHash/updateHashHelper/updateHashEdge, isAncestor, normalizePoints and data.Points.Collapse, data.Point.CRC, data.NodeEdge.CalcHash modelled by hand (Siot/Model/Store.lean, Crc32.lean)", "time.Now() for zero timestamps is not modelled (generated points carry explicit non-zero times)", "the model's upstream walks use fuel 2^|edges|, proved never to be exhausted on reachable (acyclic) states; the Go recursion has no bound", "bus level (reply text, up.* stream, follow-up latency) is covered by the handler facts gen_facts_pinned and, when the bus harness is available, by C06/C08 runs"],
         "assumptions": [],
@@ -204,7 +204,7 @@ PROPS = {
         "rule": "one in-process instance (embedded NATS + store, root R); per case 2-7 edge writes over the bus building chains, mirrors, diamonds, detached nodes (parent none), "
                 "tombstoned and undeleted edges (tombstone 0..3), refused self edges; then ONE observed write (node points, edge points incl. delete/undelete, a new edge, or a refused NaN/self write) "
                 "whose up.> publications are collected between two sentinel writes; payload compared with the batch sent; oracle = subject set equals the fixpoint upward closure "
-                "(live edges for node points, all edges for edge points), nothing for a refused write; distinct = distinct case line; one case in four uses node ids that differ in letter case only",
+                "(live edges for node points, all edges for edge points), nothing for a refused write; distinct = distinct case line; one case in four uses node ids that differ in letter case only; one tombstone write in four is followed by a second one on the same edge with the SAME time stamp",
         "trusted": ["embedded nats-server: in-order delivery per publisher/subscriber, used to bracket the observed publications by sentinels", "modernc SQLite as in C05"],
         "modelled": ["store/store.go processPointsUpstream/processEdgePointsUpstream and store/sqlite.go up modelled by hand (Siot/Model/Rebroadcast.lean on top of the store model); their shape is re-extracted on every run (gen_rebroadcast_pinned)",
                      "math.Mod(tombstone, 2) == 0 is a parameter isEven of the theorems (IEEE remainder not modelled); the driver instantiates it with float arithmetic",
@@ -268,7 +268,7 @@ PROPS = {
                 "plain edge points) on the client, children, grandchild, unrelated nodes and the other client, each batch from one origin out of: empty, the client itself, ext, u1, a child, the unrelated node, "
                 "the other client; non-decreasing time stamps (1 step in 8 repeats the previous stamp: ties between different points); a sentinel per client closes the log. 1 in 25 cases is a race case: one foreign write is sent while the client's constructor is running. "
                 "Observation = per client the ordered callback log + whether its folded configuration equals a fresh Decode of the store; oracle = foreign batches at/below present, own batches absent, "
-                "nothing from elsewhere, order of first appearances = order of writes, fold equal when nothing was self-authored; distinct = distinct case line; foreign writes to the map-typed field use the keys a, b, '' and '0' and one in three of them deletes the entry (tombstone 1)",
+                "nothing from elsewhere, order of first appearances = order of writes, fold equal when nothing was self-authored; distinct = distinct case line; foreign writes to the map-typed field use the keys a, b, '' and '0' and one in three of them deletes the entry (tombstone 1); one tree in four has a child first placed under the unrelated node, then under the client, then deleted at its older place",
         "trusted": ["embedded nats-server / nats.go: per-subscription in-order delivery", "modernc SQLite as in C05",
                     "data.Decode / data.MergePoints on the harness' Vdev type: modelled at the level of points (last delivered point per identity); their field-level behaviour is C10/C11"],
         "modelled": ["the subscription callback inside client/manager.go scan (echo filter, life-cycle edge points, pass-through) modelled by hand (Siot/Model/Feed.lean) on top of the rebroadcast model of C06; shape re-extracted every run (gen_feed_pinned)",
@@ -327,7 +327,7 @@ PROPS = {
                 "middle, and three final passes. A pass = client.VerifSyncOnce = the real SyncClient.syncNode(RA, G) over real connections (no-echo), without the Run loop. All writes carry the wall clock of "
                 "their token; dumps report a time as the index of the token during which it was taken (the model uses scattered logical times with the same order). Observation = op results + the subtree of G "
                 "on A and on B (deleted nodes included; type, parent, points, edge points with times). The model is run on the same tokens and must reproduce BOTH dumps exactly; oracle = both dumps equal as "
-                "sets of nodes and every identity written shows the newest write; distinct = distinct case line; plus end-to-end cases (3 quick, 25 thorough): the REAL SyncClient under a Manager on a second pair of instances (period 1 s, real-time forwarding, NATS reconnects), with the upstream instance stopped and started again on the same file and ports / the sync node disabled and enabled / no interruption, writes and node creations on both sides around it, then a wait (at most 30 s) for both sides to show the same subtree; judged by the specification only",
+                "sets of nodes and every identity written shows the newest write; distinct = distinct case line; plus end-to-end cases (3 quick, 25 thorough): the REAL SyncClient under a Manager on a second pair of instances (period 1 s, real-time forwarding, NATS reconnects), with the upstream instance stopped and started again on the same file and ports / the sync node disabled and enabled / no interruption, writes and node creations on both sides around it, then a wait (at most 30 s) for both sides to show the same subtree; judged by the specification only; one divergent node-point write in five is a batch that writes one identity twice, spelled with key '' and with key '0'",
         "trusted": ["embedded nats-server / nats.go request-reply", "modernc SQLite as in C05", "CRC-32 (modelled bit-serially): the model's hash decisions are the implementation's as long as no 32-bit collision happens in one of the two and not the other"],
         "modelled": ["client/sync.go syncNode, sendNodesRemote, sendNodesLocal and client.SendNode modelled by hand on two copies of the store model (Siot/Model/Sync.lean); shape re-extracted every run (gen_sync_pinned)",
                      "the select loop of SyncClient.Run with connect / disconnect is modelled as a state machine over link reports, timer firings, local writes and configuration changes (Siot/Model/SyncLoop.lean: the variables connected, syncTicker, initialSub, ncRemote, connectTimer; shape re-extracted every run, gen_syncloop_pinned); what the NATS library does between the callbacks, the subscriptions that carry upstream traffic down and the discovery of new upstream nodes through up.<root>.*.* are NOT modelled — the end-to-end cases run them",
@@ -345,7 +345,7 @@ PROPS = {
                 "(d cases: file initialised beforehand, root id and signing key recorded) or 0-30 ms after start on a file that does not exist yet (i cases: death during first-time initialisation), "
                 "re-opens the file with store.NewSqliteDb, dumps every row, compares root id and key, and performs one more write. Oracle = the dump is the state after exactly k or k+1 batches "
                 "(k = acknowledgements received), hashes consistent, file opens with the same root and key and accepts writes; distinct = distinct case line (kill instants are wall-clock dependent: "
-                "each run explores new instants; the evidence records how many kills fell inside the run and how often the batch in flight had been committed); every 8th case is a SNAPSHOT case (s): the file is prepared with the store's own schema plus triggers that copy the database and its write-ahead log at EVERY row change (first-time initialisation, every point row, every hash update), the store is initialised on it and the batches run in-process, then each of the up to 400 crash images is re-opened with NewSqliteDb and must show the same root and key, consistent hashes and a prefix state of the history (during initialisation: exactly one root edge)",
+                "each run explores new instants; the evidence records how many kills fell inside the run and how often the batch in flight had been committed); every 8th case is a SNAPSHOT case (s): the file is prepared with the store's own schema plus triggers that copy the database and its write-ahead log at EVERY row change (first-time initialisation, every point row, every hash update), the store is initialised on it and the batches run in-process, then each of the up to 400 crash images is re-opened with NewSqliteDb and must show the same root and key, consistent hashes and a prefix state of the history (during initialisation: exactly one root edge); one batch in ten carries a NaN value (bare, next to a text, or in a tombstoned point) and must be refused as a whole",
         "trusted": ["SQLite (modernc.org/sqlite) transactions: atomic, and durable against process death in WAL mode with synchronous=NORMAL — the parameter of the model; power loss / OS crash are outside (SIGKILL only)",
                     "the kernel's page cache surviving the death of the process"],
         "modelled": ["process death is modelled at the granularity of batches (Siot/Model/Crash.lean): the recovered store is a prefix state; that each batch is ONE transaction, with nothing executed outside it, "
@@ -356,7 +356,7 @@ PROPS = {
         "partial": "instants INSIDE a transaction are covered by SQLite's contract (parameter), not by a theorem about SQLite; the kill tests sample them",
     },
     "C20": {
-        "required_theorems": ["c20_reads_monotone", "c20_acked_write_visible", "c20_final_serial_and_consistent", "c20_commit_order_irrelevant"],
+        "required_theorems": ["c20_reads_monotone", "c20_acked_write_visible", "c20_final_serial_and_consistent", "c20_commit_order_irrelevant", "gen_store_run_pinned"],
         "n": {"quick": 40, "thorough": 500},
         "thorough_seeds": 3,
         "extra": [race_check],
